@@ -210,6 +210,7 @@ def unit_in_set_key(t):
 
 def run(ctx: lib.Ctx) -> None:
     rng = ctx.rng
+    V.install_sorted_check()
     ctx.rule = ('COMPARE cases: a comparable type drawn at random (depth <= 3 quick / 4 thorough; 14 leaf types incl. never under '
                 'option/or) then a pair of values, 65 % of them differing in one leaf only (equal first pair components, same '
                 'hash under another address kind / signature scheme, entrypoints around "default", P-256 keys with equal X, '
@@ -397,6 +398,7 @@ def run(ctx: lib.Ctx) -> None:
                                                                   'expected': V.spec_cmp(t, a, b), 'repro': code})
     ctx.extra['compare_cases'] = len(cases)
     ctx.extra['set_cases'] = len(scases)
+    V.report_sorted_check(ctx)
 
 
 def _parse_witness(w):
